@@ -674,8 +674,14 @@ func writeEvidence(spec *CheckSpec, tier string, seed int, results []*HarnessRes
 		"coverage": cov, "assumptions": spec.Assumptions, "wall_s": wall, "violations": nviol,
 	}
 	b, _ := json.MarshalIndent(ev, "", " ")
-	os.MkdirAll(filepath.Join(verifDir, "evidence"), 0o755)
-	os.WriteFile(filepath.Join(verifDir, "evidence", spec.ID+".json"), b, 0o644)
+	evDir := filepath.Join(verifDir, "evidence")
+	if os.Getenv("VERIF_REPO") != "" {
+		// a run against another tree (a seeded change in a scratch worktree) must
+		// not overwrite the evidence of /repo
+		evDir = filepath.Join(os.TempDir(), "verif-evidence-other-tree")
+	}
+	os.MkdirAll(evDir, 0o755)
+	os.WriteFile(filepath.Join(evDir, spec.ID+".json"), b, 0o644)
 }
 
 func keys(m map[string]bool) []string {
